@@ -111,7 +111,7 @@ func init() {
 					{{K: "arr", Addr: 1, TI: 1}, {K: "map", Addr: 2, TI: 2}},
 					{{K: "map", Addr: 1, TI: 2}, {K: "arr", Addr: 1, TI: 4}},
 				},
-				MaxBulk: 80, Keys: []int{12, 64, 300},
+				MaxBulk: 128, Keys: []int{12, 64, 300},
 				ValW: val, MaxDepth: 3, MaxElems: 5, AcqW: [3]int{7, 2, 1}, Keep: keep,
 				DigRootsPct:  30, // root maps with colliding digests: inline / external collision groups
 				HipGroupsPct: 20,
